@@ -430,6 +430,8 @@ func (h *Harness) wideCounters(w Workload, wr *WlRun) {
 		} else {
 			r.Hit("wide:failed-reorg:reorganisation-did-not-fail")
 		}
+	case "flag": // miss4.go: reorganisations over several data files - the same positional tie as for the roll-over workloads
+		h.rollTie(w, wr)
 	case "bulk":
 		h.bulkCounters(w, wr)
 	case "save-race":
